@@ -1,4 +1,14 @@
 import os, re
+import z3
+from engine.driver import run_property, Task, LemmaTask, Lem
+from engine.core import Iface, Opaque, ChanV, Ptr, NIL
+
+TRUSTED = ["golang.org/x/tools/go/ssa v0.29.0 (SSA construction)", "/verif/engine (VC generator: SSA semantics, contract language)",
+           "z3 5.1.0 (z3py) with z3 4.8.12 / cvc5 1.0.3 as fallback", "go1.23.5 toolchain (counterexample replay only)"]
+BASE_ASSUME = [
+    "go/ssa construction (x/tools v0.29.0) and the engine's bit-vector semantics of the supported SSA subset are trusted (DESIGN.md Appendix A)",
+    "integers are machine integers of their Go width in code and contracts (never mathematical)",
+]
 
 
 def filter_tasks(tasks):
@@ -6,3 +16,46 @@ def filter_tasks(tasks):
     if not pat:
         return tasks
     return [t for t in tasks if re.search(pat, t.name)]
+
+
+def field_users(prog, struct_short, field):
+    """functions (short names) containing a FieldAddr/Field of struct_short.field"""
+    out = set()
+    for f in prog.funcs.values():
+        for b in f.blocks:
+            for ins in b["instrs"]:
+                if ins["op"] in ("FieldAddr", "Field"):
+                    t = prog.under(ins["xt"])
+                    tid = ins["xt"]
+                    if t["k"] == "ptr":
+                        tid = t["elem"]
+                    if prog.types[tid]["k"] != "named":
+                        continue
+                    from engine.prog import short
+                    if short(prog.types[tid]["name"]) != struct_short:
+                        continue
+                    fl = prog.struct_fields(tid)[ins["idx"]]
+                    if fl["name"] == field:
+                        out.add(f.short)
+    return out
+
+
+def scan_lemma(name, compute, functions=()):
+    """structural obligation decided on the exported SSA: compute(ctx) -> (ok: bool, detail: str)"""
+    def run(ctx, eng, ce):
+        lem = Lem()
+        ok, detail = compute(ctx)
+        lem.add(name, z3.BoolVal(not ok), kind="scan", info={"detail": detail})
+        lem.notes.append("%s: %s" % (name, detail))
+        return lem
+    return LemmaTask(name, run, functions)
+
+
+def ext_iface(name="ext"):
+    def ov(world, tid, nm, oid, path):
+        return Iface("ext:" + name, Opaque(name))
+    return ov
+
+
+def nil_value(world, tid, nm, oid, path):
+    return world.e.zero(tid)
